@@ -30,6 +30,55 @@ PAIRS = [
 ]
 
 
+def _places_read(rv):
+    k = rv[0]
+    ops = []
+    if k == "use":
+        ops = [rv[1]]
+    elif k in ("ref", "raw", "discr", "len"):
+        yield rv[2] if k in ("ref", "raw") else rv[1]
+        return
+    elif k == "bin":
+        ops = [rv[2], rv[3]]
+    elif k in ("un", "cast"):
+        ops = [rv[2]]
+    elif k == "agg":
+        ops = list(rv[2])
+    for o in ops:
+        if isinstance(o, list) and o and o[0] in ("cp", "mv"):
+            yield o[1]
+
+
+_FR_MEMO = {}
+
+
+def _fields_read_of_param(callee, param, adt_suffix):
+    """names of the fields of `adt` that callee reads through its parameter `param` (a reference to the value)"""
+    key = (callee.path, param)
+    if key in _FR_MEMO:
+        return _FR_MEMO[key]
+    out = set()
+    aliases = {param}
+    for blk in callee.blocks:
+        for st in blk["s"]:
+            if st[0] == "=" and not st[1][1] and st[2][0] in ("use", "ref") :
+                src = st[2][1][1] if st[2][0] == "use" and st[2][1][0] in ("cp", "mv") else (st[2][2] if st[2][0] == "ref" else None)
+                if src and src[0] in aliases and all(pr == "*" for pr in src[1]):
+                    aliases.add(st[1][0])
+    for blk in callee.blocks:
+        for st in blk["s"]:
+            if st[0] != "=":
+                continue
+            for pl in _places_read(st[2]):
+                if pl[0] in aliases:
+                    for pr in pl[1]:
+                        if isinstance(pr, list) and pr[0] == "f" and pr[2].endswith(adt_suffix):
+                            out.add(pr[3])
+                            break
+    _FR_MEMO[key] = out
+    return out
+
+
 def find_body(prog, suffix):
     b = prog.body(CORE + suffix)
     if b is None:
@@ -377,6 +426,8 @@ def run(prog, tier, extra=None):
     R4 = res.rule("C09.size-predictor", "Transaction::get_serialized_size is the same linear form as the writer's length", floor=1)
     R5 = res.rule("C09.container-domain", "the block decoder adds no value-domain restriction of its own on carried transactions", floor=1)
     R6 = res.rule("C09.count-limits", "the reader accepts every slip count the writer encodes", floor=2)
+    R8 = res.rule("C09.no-field-skipped", "a decoder returns Ok only after each optional/trailing field was decoded or its own presence test said there is nothing to read", floor=1)
+    R9 = res.rule("C09.read-before-decode", "a decoder's decisions do not read a field of the value under construction before that field was assigned from the input", floor=0)
     R7 = res.rule("C09.inline-variants", "Message variants encoded inline (tuple fields concatenated in the match arm) are read back at the offsets they are written", floor=4)
     R3 = res.rule("C09.tags", "Message tags are injective and each decode arm constructs the variant carrying that tag", floor=28)
     cd = Codec(prog)
@@ -705,6 +756,119 @@ def run(prog, tier, extra=None):
             else:
                 res.sample({"tag": v, "variant": want, "verdict": "written and decoded consistently"})
         break
+    # R8 / R9 over every reader of PAIRS that fills the value field by field (`let mut x = T {..defaults..}; ...; x.f = decoded;`)
+    from .. import gate as _g
+    from ..paths import Explorer as _Ex
+    for label, adt_suffix, wname, rname, _c in PAIRS:
+        rb = find_body(prog, rname)
+        chr_ = Chaser(rb)
+        assigns = {}      # field -> [(bb, stmt index)]
+        for bb, blk in enumerate(rb.blocks):
+            for i, st in enumerate(blk["s"]):
+                if st[0] == "=" and st[1][1] and isinstance(st[1][1][0], list) and st[1][1][0][0] == "f" and st[1][1][0][2].endswith(adt_suffix) and len(st[1][1]) == 1:
+                    assigns.setdefault((st[1][0], st[1][1][0][3]), []).append((bb, i))
+            t = blk["t"]
+            if t["k"] == "call" and t["dest"][1] and isinstance(t["dest"][1][0], list) and t["dest"][1][0][0] == "f" and t["dest"][1][0][2].endswith(adt_suffix) and len(t["dest"][1]) == 1:
+                assigns.setdefault((t["dest"][0], t["dest"][1][0][3]), []).append((bb, 10 ** 6))
+        if not assigns:
+            continue
+        ret = rb.ty(0)
+        fallible = ret["k"] == "adt" and ret.get("d") in ("std::result::Result", "std::option::Option")
+        ok_acc = _g.make_accept(rb, return_tags={"Ok", "Some"})
+
+        def ok_exit(bb, env):
+            if rb.term(bb)["k"] != "return":
+                return None
+            if not fallible:
+                return "return"
+            r = ok_acc(bb, env)
+            return r if r in ("return-Ok", "return-Some", "return-unknown") else None
+
+        wsegs = cd.writer_table(find_body(prog, wname))
+        prefix_at = {}
+        off = 0
+        for f, w_ in wsegs:
+            if off is None:
+                break
+            if f and f.endswith(".len") and w_ is not None:
+                prefix_at[f[:-4]] = (off, w_)
+            off = off + w_ if w_ is not None else None
+
+        def is_presence_test(e, fld):
+            """a test that can say "nothing (more) to read for this field": a comparison on the input's length, or on the field's own
+            length prefix (the bytes the writer puts in front of it)"""
+            for x in walk(e):
+                if x[0] == "len" and strip(x[1])[0] in ("param", "local"):
+                    return True
+                if fld in prefix_at and x[0] == "call" and x[1] == "std::ops::Index::index" and len(x[2]) == 2:
+                    idx = x[2][1]
+                    while idx[0] in ("ref", "deref"):
+                        idx = idx[1]
+                    if idx[0] == "agg" and idx[1][0] == "adt" and idx[1][1].endswith("ops::Range") and len(idx[2]) == 2 and all(o[0] == "const" for o in idx[2]):
+                        if (idx[2][0][1], idx[2][1][1] - idx[2][0][1]) == prefix_at[fld]:
+                            return True
+            return False
+        # R8
+        written = {f.split(".")[0] for f, _w in cd.writer_table(find_body(prog, wname)) if f}
+        for (loc_, fld), sites in sorted(assigns.items()):
+            if fld not in written:
+                continue       # derived, not a wire field
+            blocks = {bb for bb, _ in sites}
+            # presence tests: switches on input-derived conditions that decide whether the assignment runs
+            skip_edges = set()
+            conditional = False
+            for sb, blk in enumerate(rb.blocks):
+                t = blk["t"]
+                if t["k"] != "switch" or not any(rb.dominates(sb, a) and sb != a for a in blocks):
+                    continue
+                succ = rb.succ(sb)
+                reach = {s2: rb.reachable(s2) for s2 in succ}
+                if all(any(a in reach[s2] for a in blocks) for s2 in succ):
+                    continue       # not control-dependent
+                conditional = True
+                if is_presence_test(chr_.origin(t["discr"]), fld):
+                    for s2 in succ:
+                        if not any(a in reach[s2] for a in blocks):
+                            skip_edges.add((sb, s2))
+            if not conditional:
+                continue
+            res.instance(R8)
+            found = _Ex(rb).explore(0, deleted_edges=skip_edges, blocked=blocks, accept=ok_exit)
+            if found:
+                kind, pth = sorted(found.items())[0]
+                res.add(Finding(R8, "C09.no-field-skipped|%s|%s" % (label, fld), "%s: the decoder can return Ok without decoding `%s` and without the presence test of that field "
+                                "having said there is nothing to read (the writer always writes it)" % (label, fld), rb.loc(pth[-1]), {"path": [rb.loc(x) for x in pth[:14]]}))
+            else:
+                res.sample({"rule": R8, "codec": label, "field": fld, "verdict": "decoded, or skipped only by its own presence test"})
+        # R9: reads of x.f (directly, or inside a workspace callee that is handed &x) not dominated by an assignment of x.f
+        by_local = {}
+        for (loc_, fld), sites in assigns.items():
+            by_local.setdefault(loc_, {})[fld] = sites
+        for loc_, flds in by_local.items():
+            for bb, blk in enumerate(rb.blocks):
+                reads = []
+                for i, st in enumerate(blk["s"]):
+                    if st[0] != "=":
+                        continue
+                    for pl in _places_read(st[2]):
+                        if pl[0] == loc_ and pl[1] and isinstance(pl[1][0], list) and pl[1][0][0] == "f" and pl[1][0][3] in flds:
+                            reads.append((i, pl[1][0][3], "read"))
+                t = blk["t"]
+                if t["k"] == "call":
+                    callee = prog.bodies.get(t.get("res") or t.get("callee") or "")
+                    for ai, a in enumerate(t["args"]):
+                        root = recv_local(rb, a)
+                        if root == loc_ and callee is not None and not callee.is_promoted and a[0] in ("cp", "mv") and ai + 1 <= callee.argc:
+                            cread = _fields_read_of_param(callee, ai + 1, adt_suffix)
+                            for f2 in cread & set(flds):
+                                reads.append((10 ** 6 - 1, f2, "read in %s" % callee.path.rsplit("::", 1)[-1]))
+                for (i, f2, how) in reads:
+                    res.instance(R9)
+                    ok = any((ab == bb and ai_ < i) or (ab != bb and rb.dominates(ab, bb)) for ab, ai_ in flds[f2])
+                    # the defaults of a struct literal count as assigned only for fields the decoder never assigns later
+                    if not ok:
+                        res.add(Finding(R9, "C09.read-before-decode|%s|%s" % (label, f2), "%s: the decoder consults `%s` (%s) before that field has been assigned from the input: "
+                                        "the decision is taken on the default value" % (label, f2, how), rb.loc(bb)))
     # R7: tuple variants of Message whose payload is built inline in Message::serialize (`[a.as_slice(), b.to_be_bytes().as_slice()].concat()`)
     # and taken apart inline in Message::deserialize: field k of the variant is written at the offset it is read from
     ms = find_body(prog, "msg::message::Message::serialize")
